@@ -21,7 +21,8 @@ RULE = ("statement trees of size <= N (12 quick / 25 thorough) over the name poo
         "half of them restricted to the proved core fragment, each rendered on 3 data assignments (int / str / list "
         "values, ~30% of the names left undefined); distinct = (template source, data); non-trivial = renders "
         "without error, has at least one scoping construct (for / with / set block / filter / macro / call) and at "
-        "least one assignment. Probes: NFKC-equal identifier pairs, helper-like and keyword-like identifiers, "
+        "least one assignment; plus chains of 3-5 nested scoping constructs whose own statements use 1-2 name subsets "
+        "(pass-through scopes). Probes: NFKC-equal identifier pairs, helper-like and keyword-like identifiers, "
         "alpha-renamed copies.")
 
 SIG_RBW = "C03:inner-scope-read-of-context-variable-assigned-later-by-enclosing-frame"
@@ -258,6 +259,14 @@ def run(ctx):
         datas = [g.data() for _ in range(3)]
         progs.append((p, datas))
         batch.append({"prog": p, "datas": datas, "kind": "core" if feats else "full"})
+    # deep nesting with pass-through scopes (a variable owned by an outer non-root scope, not mentioned
+    # in between, conditionally assigned and read further inside)
+    for i in range(ctx.size(500, 12000)):
+        g = G.NGen(rng)
+        p = g.program()
+        datas = [g.data() for _ in range(2)]
+        progs.append((p, datas))
+        batch.append({"prog": p, "datas": datas, "kind": "nest"})
     # NFKC hypothesis-violating inputs inside the quantifier: rename two pool names onto an NFKC-equal pair
     for i in range(ctx.size(60, 600)):
         p, datas = progs[rng.randrange(len(progs))]
